@@ -66,7 +66,12 @@ pub fn parse_choice(
     // Only scan when there is no start text yet on the header line.
     // We scan when: the header has conditions OR we absorb body conditions.
     let header_has_conditions = !conditions.is_empty();
-    if choice_text.start_text.is_empty() && choice_text.choice_only_text.is_empty() {
+    // (an explicit `->` after the conditions makes this a fallback choice: its following lines are
+    // its body, never its text)
+    if remainder.trim().is_empty()
+        && choice_text.start_text.is_empty()
+        && choice_text.choice_only_text.is_empty()
+    {
         let mut absorbed_body_conditions = false;
         while *line_index < lines.len() {
             let peek = &lines[*line_index];
